@@ -1,6 +1,6 @@
 #!/bin/sh
 # tools/verify_seed.sh <Cnn> [extra check args]: confirm a seeded change (tests unchanged, demo separates) and run our check on it
-ID=$1; shift
+ID=$1; shift; PROP=$(echo $ID | cut -c1-3)
 WT=/tmp/seed/$ID
 OUT=/verif/seeded/$ID
 mkdir -p $OUT
@@ -27,6 +27,6 @@ print("stable tests passing with the change:", len(stable & ok), "/", len(stable
 PY
 echo "demo exit: original=$DO changed=$DC"
 cd /verif
-VERIF_REPO=$WT ./check $ID "$@" > $OUT/check_quick.log 2>&1; echo "check $ID quick exit=$?"
+VERIF_REPO=$WT ./check $PROP "$@" > $OUT/check_quick.log 2>&1; echo "check $PROP quick exit=$?"
 grep -E "violation cfg|^C[0-9]+ tier" $OUT/check_quick.log | sed 's/replay=.*//' | head -5
 rm -f $OUT/tests_changed.xml
